@@ -6,7 +6,7 @@
 (* subset). "@...@" strings are file-system placeholders the harness fills in.    *)
 EXTENDS Malformed, Json
 
-CONSTANTS Families      \* subset of {"jsonschema","openapi","cue","pipeline","passes","veneers","sequences","parameters","cycles","cyclepasses","cycleveneers","veneerpaths","ifexpr","discriminators"} to emit
+CONSTANTS Families      \* subset of {"jsonschema","openapi","cue","pipeline","passes","veneers","sequences","parameters","cycles","cyclepasses","cycleveneers","veneerpaths","ifexpr","discriminators","handtypes","drafts"} to emit
 
 VARIABLES fam, base, m
 vars == <<fam, base, m>>
@@ -360,6 +360,92 @@ DiscSharing  == <<"all-distinct", "all-same-value", "first-only", "different-nam
 DiscPlaces   == <<"field", "optional-field", "array", "map", "definition">>
 DiscLangs    == <<"cue", "jsonschema", "openapi">>
 
+(* ---- hand-written types (add_fields / add_object / retype_object / retype_field): a type is a tree, and the hole a malformed   *)
+(* type can sit in is ANY position of that tree - the type itself, the value type of an array, the INDEX type and the value type *)
+(* of a map, the type of a struct field, a branch of a disjunction or of an intersection - one or two levels deep. Every filler   *)
+(* (a kind that announces a definition the type does not carry, for every kind; the definition of another kind; an unknown or    *)
+(* missing kind; definitions whose own members are missing or empty; values that are not a mapping at all; two well-formed       *)
+(* controls) x every position x every pass that carries a hand-written type. Dense: run completely in every tier.                *)
+MapT(i, v)  == O(<<P("kind", S("map")), P("map", O(<<P("indextype", i), P("valuetype", v)>>))>>)
+ArrT(v)     == O(<<P("kind", S("array")), P("array", O(<<P("value_type", v)>>))>>)
+DisjT(bs)   == O(<<P("kind", S("disjunction")), P("disjunction", O(<<P("branches", A(bs))>>))>>)
+InterT(bs)  == O(<<P("kind", S("intersection")), P("intersection", O(<<P("branches", A(bs))>>))>>)
+KindOnly(k) == O(<<P("kind", S(k))>>)
+TypePositions == <<"type", "array-value", "map-index", "map-value", "struct-field", "disjunction-branch", "intersection-branch">>
+InPos(c, t) ==
+  CASE c = 1 -> t
+    [] c = 2 -> ArrT(t)
+    [] c = 3 -> MapT(t, StrType)
+    [] c = 4 -> MapT(StrType, t)
+    [] c = 5 -> StructType(<<FieldT("f", t)>>)
+    [] c = 6 -> DisjT(<<StrType, t>>)
+    [] c = 7 -> InterT(<<RefTo("Child"), t>>)
+TypeFillers == <<
+  KindOnly("scalar"), KindOnly("ref"), KindOnly("enum"), KindOnly("struct"), KindOnly("array"), KindOnly("map"), KindOnly("disjunction"),
+  KindOnly("intersection"), KindOnly("constant_ref"), KindOnly("composable_slot"), KindOnly("nonsense"), O(<<>>),
+  O(<<P("kind", S("struct")), P("scalar", O(<<P("scalar_kind", S("string"))>>))>>),                 \* the definition of another kind
+  O(<<P("kind", S("scalar")), P("ref", O(<<P("referred_pkg", S("cfgt")), P("referred_type", S("Child"))>>))>>),
+  O(<<P("scalar", O(<<P("scalar_kind", S("string"))>>))>>),                                          \* a definition, no kind
+  O(<<P("kind", S("enum")), P("enum", O(<<P("values", A(<<>>))>>))>>),
+  O(<<P("kind", S("array")), P("array", O(<<>>))>>),
+  O(<<P("kind", S("map")), P("map", O(<<>>))>>),
+  O(<<P("kind", S("map")), P("map", O(<<P("indextype", StrType)>>))>>),
+  O(<<P("kind", S("map")), P("map", O(<<P("valuetype", StrType)>>))>>),
+  O(<<P("kind", S("struct")), P("struct", O(<<P("fields", A(<<O(<<P("name", S("g"))>>)>>))>>))>>),  \* a field without a type
+  O(<<P("kind", S("disjunction")), P("disjunction", O(<<P("branches", A(<<O(<<>>)>>))>>))>>),
+  JNull, S("x"), A(<<>>),
+  StrType, RefTo("Child")                                                                              \* well-formed controls
+>>
+TypeCarriers == <<"retype_field", "retype_object", "add_object", "add_fields">>
+CarrierDoc(k, t) ==
+  CASE k = 1 -> Pass("retype_field", O(<<P("field", S("cfgt.Root.name")), P("as", t), P("comments", A(<<>>))>>))
+    [] k = 2 -> Pass("retype_object", O(<<P("object", S("cfgt.Alias")), P("as", t), P("comments", A(<<>>))>>))
+    [] k = 3 -> Pass("add_object", O(<<P("object", S("cfgt.Added")), P("as", t)>>))
+    [] k = 4 -> Pass("add_fields", O(<<P("to", S("cfgt.Child")), P("fields", A(<<FieldT("extra", t)>>))>>))
+\* outer = 1: the hole is at depth one (or is the type itself); two levels deep only through retype_field
+HandTypeCases == {[path |-> <<>>, mut |-> f, pos |-> 1, t |-> c, lang |-> k] : f \in DOMAIN TypeFillers, c \in DOMAIN TypePositions, k \in DOMAIN TypeCarriers}
+                 \cup {[path |-> <<>>, mut |-> f, pos |-> o, t |-> c, lang |-> 1] : f \in DOMAIN TypeFillers, o \in 2..Len(TypePositions), c \in 2..Len(TypePositions)}
+HandType(mm) == InPos(mm.pos, InPos(mm.t, TypeFillers[mm.mut]))
+
+(* ---- JSON Schema drafts: what the schema compiler lets through to cog's parser depends on the `$schema` the document names     *)
+(* (the draft-04/06/07 meta-schemas refuse an empty `enum`, draft-04 an empty `required`, ...; a document without `$schema` is    *)
+(* read as 2020-12). Every container- or string-valued site of a document that is valid under every draft, replaced by the EMPTY *)
+(* value of its kind ([] {} ""), under every draft the compiler knows and under none. Dense: run completely in every tier.       *)
+DraftIds == <<"", "http://json-schema.org/draft-04/schema#", "http://json-schema.org/draft-06/schema#", "http://json-schema.org/draft-07/schema#",
+              "https://json-schema.org/draft/2019-09/schema", "https://json-schema.org/draft/2020-12/schema">>
+DraftDefs(pre) == <<
+  P("Root", O(<<Ty("object"), P("required", A(<<S("id")>>)), P("properties", O(<<
+      P("id", IntT),
+      P("mode", O(<<Ty("string"), P("enum", A(<<S("a"), S("b")>>)), P("default", S("a"))>>)),
+      P("level", O(<<Ty("integer"), P("enum", A(<<JInt(1), JInt(2)>>))>>)),
+      P("free", O(<<P("enum", A(<<S("x"), S("y")>>))>>)),
+      P("nn", O(<<P("type", A(<<S("string"), S("null")>>))>>)),
+      P("tags", O(<<Ty("array"), P("items", StrT), P("default", A(<<S("a")>>))>>)),
+      P("labels", O(<<Ty("object"), P("additionalProperties", StrT)>>)),
+      P("u", O(<<P("oneOf", A(<<StrT, IntT>>))>>)),
+      P("maybe", O(<<P("anyOf", A(<<Ref(pre, "Child"), O(<<Ty("null")>>)>>))>>)),
+      P("inl", O(<<Ty("object"), P("required", A(<<S("z")>>)), P("properties", O(<<P("z", IntT)>>))>>)),
+      P("when", O(<<Ty("string"), P("format", S("date-time"))>>)),
+      P("color", Ref(pre, "Color"))>>))>>)),
+  P("Child", O(<<Ty("object"), P("required", A(<<S("cid")>>)), P("properties", O(<<P("cid", IntT)>>))>>)),
+  P("Color", O(<<Ty("string"), P("enum", A(<<S("red"), S("green")>>))>>))
+>>
+DraftExtraDefs(pre) == <<
+  P("Root", O(<<Ty("object"), P("properties", O(<<
+      P("k", O(<<Ty("string"), P("const", S("a"))>>)),
+      P("obj", O(<<Ty("object"), P("default", O(<<P("cid", JInt(1))>>)), P("properties", O(<<P("cid", IntT)>>))>>)),
+      P("ext", Ref(pre, "Ext"))>>))>>)),
+  P("Child", O(<<Ty("object"), P("properties", O(<<P("cid", IntT)>>))>>)),
+  P("Ext", O(<<P("allOf", A(<<Ref(pre, "Child"), O(<<Ty("object"), P("properties", O(<<P("x", IntT)>>))>>)>>))>>))
+>>
+DraftDoc(d, defs) == O((IF DraftIds[d] = "" THEN <<>> ELSE <<P("$schema", S(DraftIds[d]))>>)
+                       \o <<P("$ref", S(JsPre \o "Root")), P("definitions", O(defs))>>)
+DraftBases(d) == <<DraftDoc(d, DraftDefs(JsPre)), DraftDoc(d, DraftExtraDefs(JsPre))>>
+EmptyOf(v) == CASE v.j = "arr" -> A(<<>>) [] v.j = "obj" -> O(<<>>) [] OTHER -> S("")
+\* sites are computed on the document WITHOUT `$schema` (the same sites under every draft; `$schema` itself is not one of them)
+EmptySites(doc) == {p \in Sites(doc) : AtPath(doc, p).j \in {"arr", "obj", "str"} /\ AtPath(doc, p) # EmptyOf(AtPath(doc, p))}
+DraftPath(d, p) == IF DraftIds[d] = "" THEN p ELSE <<[s |-> "o", i |-> p[1].i + 1]>> \o Tail(p)
+
 (* ====================================================================== enumeration *)
 Bases(f) ==
   CASE f = "jsonschema" -> <<JsDoc(Defs(JsPre, FALSE)), JsDoc(CycleDefs(JsPre)), JsDoc(ExtraDefs(JsPre))>>
@@ -389,6 +475,8 @@ Init == /\ fam \in Families
              [] fam = "ifexpr" -> base = 1 /\ m \in {[path |-> <<>>, mut |-> e] : e \in DOMAIN IfExprs}
              [] fam = "discriminators" -> base = 1 /\ m \in {[path |-> <<>>, mut |-> k, pos |-> sh, t |-> pl, lang |-> g] :
                                                      k \in DOMAIN DiscKinds, sh \in DOMAIN DiscSharing, pl \in DOMAIN DiscPlaces, g \in DOMAIN DiscLangs}
+             [] fam = "handtypes" -> base = 1 /\ m \in HandTypeCases
+             [] fam = "drafts" -> base \in DOMAIN DraftBases(1) /\ m \in {[path |-> p, mut |-> d] : p \in EmptySites(DraftBases(1)[base]), d \in DOMAIN DraftIds}
              [] fam = "cyclepasses" -> base \in DOMAIN CyclePassDocs /\ m = AsIs
              [] fam = "cycleveneers" -> base \in DOMAIN CycleVeneerDocs /\ m = AsIs
              [] fam = "parameters" -> base = 1 /\ m \in {SeqCase(u, pv, qv) : u \in DOMAIN ParamUses, pv \in DOMAIN ParamValues, qv \in DOMAIN ParamValues}
@@ -402,6 +490,15 @@ Emit ==
   THEN PrintT(<<"CASE", ToJson([fam |-> fam, base |-> base, class |-> IF m.mut = 0 THEN "absent" ELSE "path",
                                 keyword |-> Keyword(VeneerBases[base], m.path), path |-> KeyPath(VeneerBases[base], m.path), mut |-> m.mut,
                                 doc |-> IF m.mut = 0 THEN Remove(VeneerBases[base], m.path) ELSE Replace(VeneerBases[base], m.path, PathAlphabet[m.mut])])>>)
+  ELSE IF fam = "handtypes"
+  THEN PrintT(<<"CASE", ToJson([fam |-> fam, base |-> base, class |-> "hand-written-type", keyword |-> TypePositions[m.t], path |-> <<>>, mut |-> m.mut,
+                                carrier |-> TypeCarriers[m.lang], outer |-> TypePositions[m.pos], inner |-> TypePositions[m.t], filler |-> m.mut,
+                                doc |-> CarrierDoc(m.lang, HandType(m))])>>)
+  ELSE IF fam = "drafts"
+  THEN LET doc == DraftBases(m.mut)[base]
+           p   == DraftPath(m.mut, m.path)
+       IN PrintT(<<"CASE", ToJson([fam |-> fam, base |-> base, class |-> "degenerate", keyword |-> Keyword(doc, p), path |-> KeyPath(doc, p), mut |-> m.mut,
+                                   draft |-> DraftIds[m.mut], doc |-> Replace(doc, p, EmptyOf(AtPath(doc, p)))])>>)
   ELSE IF fam = "ifexpr"
   THEN PrintT(<<"CASE", ToJson([fam |-> fam, base |-> base, class |-> "if-expression", keyword |-> "if", path |-> <<>>, mut |-> m.mut,
                                 expr |-> IfExprs[m.mut], doc |-> IfDoc(m.mut)])>>)
